@@ -1,106 +1,1255 @@
-//! Block `serde` (C17) — PROBE VERSION (being developed)
+//! Block `serde` (C17): every exported model type survives save/load in every advertised format
+//! (YAML, JSON, bincode — `SerdeAPI::{to,from}_{yaml,json,bincode,file}`), in its default state and
+//! at every step index of short simulations, and a simulation resumed from the loaded copy continues
+//! exactly like the uninterrupted run.
+//!
+//! Two parts:
+//!  * ORACLE (exercised part of the property: the text/binary float codecs are library code):
+//!    x1 = load(save x), x2 = load(save x1) …, compared bit for bit through the serialized value
+//!    trees (YAML, bincode) / within 1 ulp per number (JSON), plus the type's own `PartialEq`;
+//!    simulations are continued from x1 and from x and must agree;
+//!  * CORRESPONDENCE for the structural codec model (lean/Altrios/Serde.lean over the scanner's
+//!    table): the shape of what the real encoder wrote goes to the Lean driver (`serde_shape`,
+//!    `serde_bin`), which must reproduce keys / order / omitted fields / bincode byte count /
+//!    bincode round-trip verdict.
+use crate::b_pt::{gen_consist, gen_edrv, gen_fc, gen_gen, gen_loco, gen_res};
+use crate::netgen::*;
 use crate::prng::Rng;
 use crate::proto::*;
 use altrios_core::consist::locomotive::locomotive_model::PowertrainType;
+use altrios_core::consist::{PowerDistributionControlType, Proportional, RESGreedy};
+use altrios_core::meet_pass::disp_structs::{EstType, LinkEvent};
+use altrios_core::meet_pass::est_times::EstTime;
+use altrios_core::consist::locomotive::loco_sim::LocomotiveSimulationVec;
 use altrios_core::prelude::*;
+use altrios_core::track::*;
+use altrios_core::train::kind::{aerodynamic, bearing, davis_b, path_res, rolling};
+use altrios_core::train::method;
+use altrios_core::train::*;
 use altrios_core::traits::SerdeAPI;
-use altrios_core::validate::Valid;
-use altrios_core::{si, uc};
+use altrios_core::validate::*;
+use altrios_core::uc;
+use serde_json::json;
+use serde_yaml::Value as Y;
+use std::collections::{BTreeMap, HashMap};
 use std::fmt::Debug;
 
-fn rt<T: SerdeAPI>(x: &T, fmt: &str) -> Result<T, String> {
-    match fmt {
-        "yaml" => T::from_yaml(x.to_yaml().map_err(|e| format!("ser: {e}"))?).map_err(|e| format!("de: {e:#}")),
-        "json" => T::from_json(x.to_json().map_err(|e| format!("ser: {e}"))?).map_err(|e| format!("de: {e:#}")),
-        "bin" => T::from_bincode(&x.to_bincode().map_err(|e| format!("ser: {e}"))?).map_err(|e| format!("de: {e:#}")),
-        _ => unreachable!(),
+const P: &str = "C17";
+/// clause of the known finding (DESIGN §8 #1): bincode + a conditionally skipped field at its default
+const CL_BIN_DESYNC: &str = "bincode_skipped_field_desync";
+/// clause of the JSON finding: serde_json writes NaN / ±inf as `null` and cannot read it back as f64
+const CL_JSON_NONFINITE: &str = "json_nonfinite_number_as_null";
+
+#[derive(Clone, Copy, PartialEq, Eq, Debug)]
+enum Fmt {
+    Yaml,
+    Json,
+    Bin,
+}
+impl Fmt {
+    fn name(self) -> &'static str {
+        match self {
+            Fmt::Yaml => "yaml",
+            Fmt::Json => "json",
+            Fmt::Bin => "bin",
+        }
+    }
+}
+const FMTS: [Fmt; 3] = [Fmt::Yaml, Fmt::Json, Fmt::Bin];
+
+/// save + load through the crate's public API (includes `init()` after load)
+fn save_load<T: SerdeAPI>(x: &T, f: Fmt) -> Result<T, String> {
+    match f {
+        Fmt::Yaml => T::from_yaml(x.to_yaml().map_err(|e| format!("save: {e:#}"))?).map_err(|e| format!("load: {e:#}")),
+        Fmt::Json => T::from_json(x.to_json().map_err(|e| format!("save: {e:#}"))?).map_err(|e| format!("load: {e:#}")),
+        Fmt::Bin => T::from_bincode(&x.to_bincode().map_err(|e| format!("save: {e:#}"))?).map_err(|e| format!("load: {e:#}")),
     }
 }
 
-fn probe<T: SerdeAPI + PartialEq + Debug>(name: &str, x: &T) {
-    for fmt in ["yaml", "json", "bin"] {
-        let r = guard(|| rt(x, fmt));
-        match r {
-            None => eprintln!("{name:32} {fmt:5} PANIC"),
-            Some(Err(e)) => eprintln!("{name:32} {fmt:5} ERR {}", &e[..e.len().min(150)]),
-            Some(Ok(x1)) => {
-                let eq1 = &x1 == x;
-                let r2 = rt(&x1, fmt);
-                let eq2 = match &r2 { Ok(x2) => (x2 == &x1).to_string(), Err(e) => format!("ERR {}", &e[..e.len().min(100)]) };
-                eprintln!("{name:32} {fmt:5} ok  x1==x:{eq1}  x2==x1:{eq2}");
+// ------------------------------------------------------------------ serialized value trees
+
+fn tree<T: serde::Serialize>(x: &T) -> Y {
+    serde_yaml::to_value(x).unwrap_or(Y::Null)
+}
+
+fn pct(s: &str) -> String {
+    let mut o = String::new();
+    for b in s.bytes() {
+        let c = b as char;
+        if c.is_ascii_alphanumeric() || c == '_' || c == '-' || c == '.' {
+            o.push(c);
+        } else {
+            o.push_str(&format!("%{:02X}", b));
+        }
+    }
+    o
+}
+
+fn key_str(k: &Y) -> String {
+    match k {
+        Y::String(s) => s.clone(),
+        Y::Number(n) => n.to_string(),
+        Y::Bool(b) => b.to_string(),
+        _ => "?".into(),
+    }
+}
+
+/// shape tokens of a serialized value (leaves abstracted, strings kept)
+fn shape(v: &Y, o: &mut String) {
+    match v {
+        Y::Null => o.push_str(" ~"),
+        Y::Bool(_) => o.push_str(" #b"),
+        Y::Number(n) => o.push_str(if n.is_f64() { " #f" } else { " #i" }),
+        Y::String(s) => {
+            o.push_str(" =");
+            o.push_str(&pct(s));
+        }
+        Y::Sequence(l) => {
+            o.push_str(&format!(" [ {}", l.len()));
+            for x in l {
+                shape(x, o);
+            }
+        }
+        Y::Mapping(m) => {
+            o.push_str(&format!(" {{ {}", m.len()));
+            for (k, x) in m.iter() {
+                o.push_str(" =");
+                o.push_str(&pct(&key_str(k)));
+                shape(x, o);
             }
         }
     }
 }
 
-pub fn run(_ctx: &mut Ctx, _r: &mut Rng, _tier: &str) {
-    probe("FuelConverter", &FuelConverter::default());
-    let mut fc = FuelConverter::default();
-    fc.state.i = 5;
-    probe("FuelConverter(i=5)", &fc);
-    probe("Generator", &Generator::default());
-    probe("ElectricDrivetrain", &ElectricDrivetrain::default());
-    probe("ReversibleEnergyStorage", &ReversibleEnergyStorage::default());
-    probe("Locomotive(conv)", &Locomotive::default());
-    probe("Locomotive(bel)", &Locomotive::default_battery_electric_loco());
-    probe("Locomotive(hybrid)", &Locomotive::default_hybrid_electric_loco());
-    probe("Consist", &Consist::default());
-    probe("PowerTrace", &PowerTrace::default());
-    probe("SpeedTrace", &SpeedTrace::default());
-    probe("TrainConfig", &TrainConfig::valid());
-    probe("TrainSimBuilder", &TrainSimBuilder::default());
-    probe("InitTrainState", &InitTrainState::default());
-    probe("TrainState", &TrainState::default());
-    probe("TrainState::valid", &TrainState::valid());
-    probe("PathTpc::default", &PathTpc::default());
-    probe("PathTpc::valid(finished)", &PathTpc::valid());
-    probe("Link::valid", &Link::valid());
-    probe("Network", &Network(Vec::<Link>::valid()));
-    probe("LocomotiveSimulation", &LocomotiveSimulation::default());
-    probe("ConsistSimulation", &ConsistSimulation::default());
-    probe("SetSpeedTrainSim", &SetSpeedTrainSim::default());
-    probe("SpeedLimitTrainSim::default", &SpeedLimitTrainSim::default());
-    probe("SpeedLimitTrainSim::valid", &SpeedLimitTrainSim::valid());
-    probe("TrainRes::valid", &TrainRes::valid());
-    let _ = (uc::W, PowertrainType::default(), 0.0 * uc::W == si::Power::default());
-    // first-step braking: fresh vs reloaded
-    let pt = PowerTrace::new(vec![0.0, 1.0, 2.0, 3.0], vec![0.0, -1.0e5, -2.0e5, 1.0e5], vec![Some(true); 4]);
-    let mut a = ConsistSimulation::new(Consist::default(), pt.clone(), Some(1));
-    let mut b = ConsistSimulation::from_yaml(a.to_yaml().unwrap()).unwrap();
-    eprintln!("fresh  pwr_dyn_brake_max = {:?}", a.loco_con.state.pwr_dyn_brake_max.value);
-    eprintln!("reload pwr_dyn_brake_max = {:?}", b.loco_con.state.pwr_dyn_brake_max.value);
-    eprintln!("fresh  step1: {:?}", a.step().map_err(|e| format!("{e:#}").chars().take(200).collect::<String>()));
-    eprintln!("reload step1: {:?}", b.step().map_err(|e| format!("{e:#}").chars().take(200).collect::<String>()));
-    // set speed train sim with decelerating first step
-    let mut s = SetSpeedTrainSim::default();
-    eprintln!("sst speed trace head: {:?}", &s.speed_trace.speed[..4].iter().map(|v| v.value).collect::<Vec<_>>());
-    s.speed_trace.speed[0] = 5.0 * uc::MPS;
-    s.state.speed = 5.0 * uc::MPS;
-    s.set_save_interval(Some(1));
-    let mut t = SetSpeedTrainSim::from_yaml(s.to_yaml().unwrap()).unwrap();
-    let ra = s.step(); let rb = t.step();
-    eprintln!("sst fresh  step1: {:?} pwr_whl_out={}", ra.map_err(|e| format!("{e:#}").chars().take(200).collect::<String>()), s.state.pwr_whl_out.value);
-    eprintln!("sst reload step1: {:?} pwr_whl_out={}", rb.map_err(|e| format!("{e:#}").chars().take(200).collect::<String>()), t.state.pwr_whl_out.value);
-    // serde_json features
-    let v: f64 = 0.1 + 0.2;
-    let j = serde_json::to_string(&v).unwrap();
-    let w: f64 = serde_json::from_str(&j).unwrap();
-    eprintln!("json f64 rt exact on 0.1+0.2: {}", v.to_bits() == w.to_bits());
-    for (lo, hi) in [(1e-6, 1e-3), (1e-3, 1.0), (1.0, 1e3), (1e3, 1e6), (1e6, 1e9), (1e9, 1e15)] {
-        let mut hist = [0u64; 4];
-        let mut rr = Rng::new(7);
-        let mut ex = String::new();
-        for _ in 0..300000 {
-            let x = (lo as f64) * ((hi / lo) as f64).powf(rr.unit());
-            let y: f64 = serde_json::from_str(&serde_json::to_string(&x).unwrap()).unwrap();
-            let d = (x.to_bits() as i64 - y.to_bits() as i64).unsigned_abs().min(3) as usize;
-            hist[d] += 1;
-            if d >= 2 && ex.is_empty() { ex = format!("{x:?} -> {y:?}"); }
-        }
-        eprintln!("json f64 rt [{lo:e},{hi:e}): ulp-distance histogram 0:{} 1:{} 2:{} >=3:{}  {}", hist[0], hist[1], hist[2], hist[3], ex);
+fn has_nonfinite(v: &Y) -> bool {
+    match v {
+        Y::Number(n) => n.is_f64() && !n.as_f64().unwrap().is_finite(),
+        Y::Sequence(l) => l.iter().any(has_nonfinite),
+        Y::Mapping(m) => m.iter().any(|(_, x)| has_nonfinite(x)),
+        _ => false,
     }
-    let mut bad = 0;
-    let mut rr = Rng::new(7);
-    for _ in 0..200000 { let x = f64::from_bits(rr.next_u64() >> 2 | 0x3000_0000_0000_0000); let y: f64 = serde_yaml::from_str(&serde_yaml::to_string(&x).unwrap()).unwrap(); if x.to_bits()!=y.to_bits() { bad+=1; } }
-    eprintln!("yaml f64 rt: {bad}/200000 inexact");
+}
+fn has_nan(v: &Y) -> bool {
+    match v {
+        Y::Number(n) => n.is_f64() && n.as_f64().unwrap().is_nan(),
+        Y::Sequence(l) => l.iter().any(has_nan),
+        Y::Mapping(m) => m.iter().any(|(_, x)| has_nan(x)),
+        _ => false,
+    }
+}
+fn max_abs(v: &Y) -> f64 {
+    match v {
+        Y::Number(n) => n.as_f64().filter(|x| x.is_finite()).map(f64::abs).unwrap_or(0.0),
+        Y::Sequence(l) => l.iter().map(max_abs).fold(0.0, f64::max),
+        Y::Mapping(m) => m.iter().map(|(_, x)| max_abs(x)).fold(0.0, f64::max),
+        _ => 0.0,
+    }
+}
+/// largest |x| outside the range in which serde_json's default float parser is within 1 ulp
+fn has_extreme(v: &Y) -> bool {
+    match v {
+        Y::Number(n) => n.is_f64() && n.as_f64().map(|x| x.is_finite() && x != 0.0 && !(1e-60..1e60).contains(&x.abs())).unwrap_or(false),
+        Y::Sequence(l) => l.iter().any(has_extreme),
+        Y::Mapping(m) => m.iter().any(|(_, x)| has_extreme(x)),
+        _ => false,
+    }
+}
+
+fn ulp_dist(a: f64, b: f64) -> u64 {
+    if a.is_nan() && b.is_nan() {
+        return 0;
+    }
+    if a.is_nan() || b.is_nan() {
+        return u64::MAX;
+    }
+    // map to a monotone integer line
+    let k = |x: f64| -> i128 {
+        let bits = x.to_bits();
+        if bits >> 63 == 0 { bits as i128 } else { -((bits & 0x7fff_ffff_ffff_ffff) as i128) }
+    };
+    let d = (k(a) - k(b)).unsigned_abs();
+    d.min(u64::MAX as u128) as u64
+}
+
+/// how two serialized trees may differ
+#[derive(Clone, Copy)]
+enum Tol {
+    /// identical bit patterns (NaN = NaN; -0.0 ≠ +0.0)
+    Bits,
+    /// at most this many ulps per number
+    Ulps(u64),
+    /// |a−b| ≤ rel·max(|a|,|b|) + abs
+    Close { rel: f64, abs: f64 },
+}
+
+struct Cmp {
+    max_ulps: u64,
+    max_rel: f64,
+    n_numbers: u64,
+    n_inexact: u64,
+}
+
+/// structural comparison; Err(path: what) on the first violation of `tol`
+fn tree_cmp(a: &Y, b: &Y, tol: Tol, path: &mut String, c: &mut Cmp) -> Result<(), String> {
+    match (a, b) {
+        (Y::Null, Y::Null) => Ok(()),
+        (Y::Bool(x), Y::Bool(y)) if x == y => Ok(()),
+        (Y::String(x), Y::String(y)) if x == y => Ok(()),
+        (Y::Number(x), Y::Number(y)) => {
+            if !x.is_f64() || !y.is_f64() {
+                return if x == y { Ok(()) } else { Err(format!("{path}: integer {x} vs {y}")) };
+            }
+            let (x, y) = (x.as_f64().unwrap(), y.as_f64().unwrap());
+            c.n_numbers += 1;
+            let d = ulp_dist(x, y);
+            if x.to_bits() != y.to_bits() && !(x.is_nan() && y.is_nan()) {
+                c.n_inexact += 1;
+            }
+            c.max_ulps = c.max_ulps.max(d);
+            let rel = if x == y || (x.is_nan() && y.is_nan()) { 0.0 } else { (x - y).abs() / x.abs().max(y.abs()) };
+            if rel.is_finite() {
+                c.max_rel = c.max_rel.max(rel);
+            }
+            let ok = match tol {
+                Tol::Bits => x.to_bits() == y.to_bits() || (x.is_nan() && y.is_nan()),
+                Tol::Ulps(k) => d <= k,
+                Tol::Close { rel, abs } => {
+                    (x.is_nan() && y.is_nan()) || x == y || (x - y).abs() <= rel * x.abs().max(y.abs()) + abs
+                }
+            };
+            if ok { Ok(()) } else { Err(format!("{path}: {x:?} vs {y:?} ({d} ulps)")) }
+        }
+        (Y::Sequence(x), Y::Sequence(y)) => {
+            if x.len() != y.len() {
+                return Err(format!("{path}: sequence length {} vs {}", x.len(), y.len()));
+            }
+            for (i, (p, q)) in x.iter().zip(y).enumerate() {
+                let l = path.len();
+                path.push_str(&format!(".{i}"));
+                tree_cmp(p, q, tol, path, c)?;
+                path.truncate(l);
+            }
+            Ok(())
+        }
+        (Y::Mapping(x), Y::Mapping(y)) => {
+            if x.len() != y.len() {
+                let kx: Vec<String> = x.iter().map(|(k, _)| key_str(k)).collect();
+                let ky: Vec<String> = y.iter().map(|(k, _)| key_str(k)).collect();
+                return Err(format!("{path}: keys {kx:?} vs {ky:?}"));
+            }
+            // maps (HashMap fields) may iterate in a different order after a reload: compare by key
+            for (k, p) in x.iter() {
+                let Some(q) = y.get(k) else { return Err(format!("{path}: key {} missing", key_str(k))); };
+                let l = path.len();
+                path.push_str(&format!(".{}", key_str(k)));
+                tree_cmp(p, q, tol, path, c)?;
+                path.truncate(l);
+            }
+            Ok(())
+        }
+        _ => Err(format!("{path}: different kinds of value")),
+    }
+}
+
+fn cmp_trees(a: &Y, b: &Y, tol: Tol) -> (Result<(), String>, Cmp) {
+    let mut c = Cmp { max_ulps: 0, max_rel: 0.0, n_numbers: 0, n_inexact: 0 };
+    let r = tree_cmp(a, b, tol, &mut String::new(), &mut c);
+    (r, c)
+}
+
+// ------------------------------------------------------------------ the objects under test
+
+fn jp(p: &str, s: &str) -> String {
+    if p.is_empty() { s.to_string() } else { format!("{p}.{s}") }
+}
+
+/// a serializable model type under test
+trait Obj: SerdeAPI + Clone + Debug + PartialEq {
+    /// key in the scanner's table (lean/Generated/SerdeSchema.lean)
+    const NAME: &'static str;
+    /// populate the `#[serde(skip)]` caches (so that `==` is "equal modulo caches")
+    fn warm(&mut self) {}
+    /// conditionally skipped fields whose predicate holds, by typed field access (paths)
+    fn hits(&self, _p: &str, _o: &mut Vec<String>) {}
+}
+
+macro_rules! plain_obj {
+    ($t:ty, $n:expr) => {
+        impl Obj for $t {
+            const NAME: &'static str = $n;
+        }
+    };
+}
+
+macro_rules! state_hit {
+    ($s:expr, $p:expr, $o:expr) => {
+        if $s.state == Default::default() {
+            $o.push(jp($p, "state"));
+        }
+    };
+}
+
+impl Obj for FuelConverter {
+    const NAME: &'static str = "FuelConverter";
+    fn hits(&self, p: &str, o: &mut Vec<String>) {
+        state_hit!(self, p, o);
+    }
+}
+impl Obj for Generator {
+    const NAME: &'static str = "Generator";
+    fn warm(&mut self) {
+        let _ = self.set_pwr_in_frac_interp();
+    }
+    fn hits(&self, p: &str, o: &mut Vec<String>) {
+        state_hit!(self, p, o);
+    }
+}
+impl Obj for ElectricDrivetrain {
+    const NAME: &'static str = "ElectricDrivetrain";
+    fn warm(&mut self) {
+        let _ = self.set_pwr_in_frac_interp();
+    }
+    fn hits(&self, p: &str, o: &mut Vec<String>) {
+        state_hit!(self, p, o);
+    }
+}
+impl Obj for ReversibleEnergyStorage {
+    const NAME: &'static str = "ReversibleEnergyStorage";
+    fn hits(&self, p: &str, o: &mut Vec<String>) {
+        state_hit!(self, p, o);
+    }
+}
+impl Obj for Locomotive {
+    const NAME: &'static str = "Locomotive";
+    fn warm(&mut self) {
+        match &mut self.loco_type {
+            PowertrainType::ConventionalLoco(c) => {
+                c.gen.warm();
+                c.edrv.warm();
+            }
+            PowertrainType::HybridLoco(h) => {
+                h.gen.warm();
+                h.edrv.warm();
+            }
+            PowertrainType::BatteryElectricLoco(b) => b.edrv.warm(),
+            PowertrainType::DummyLoco(_) => {}
+        }
+    }
+    fn hits(&self, p: &str, o: &mut Vec<String>) {
+        let q = jp(p, "loco_type");
+        match &self.loco_type {
+            PowertrainType::ConventionalLoco(c) => {
+                c.fc.hits(&jp(&q, "fc"), o);
+                c.gen.hits(&jp(&q, "gen"), o);
+                c.edrv.hits(&jp(&q, "edrv"), o);
+            }
+            PowertrainType::HybridLoco(h) => {
+                h.fc.hits(&jp(&q, "fc"), o);
+                h.gen.hits(&jp(&q, "gen"), o);
+                h.res.hits(&jp(&q, "res"), o);
+                h.edrv.hits(&jp(&q, "edrv"), o);
+            }
+            PowertrainType::BatteryElectricLoco(b) => {
+                b.res.hits(&jp(&q, "res"), o);
+                b.edrv.hits(&jp(&q, "edrv"), o);
+            }
+            PowertrainType::DummyLoco(_) => {}
+        }
+        state_hit!(self, p, o);
+    }
+}
+impl Obj for Consist {
+    const NAME: &'static str = "Consist";
+    fn warm(&mut self) {
+        for l in self.loco_vec.iter_mut() {
+            l.warm();
+        }
+        let _ = self.n_res_equipped();
+    }
+    fn hits(&self, p: &str, o: &mut Vec<String>) {
+        for (i, l) in self.loco_vec.iter().enumerate() {
+            l.hits(&jp(&jp(p, "loco_vec"), &i.to_string()), o);
+        }
+        state_hit!(self, p, o);
+    }
+}
+impl Obj for LocomotiveSimulation {
+    const NAME: &'static str = "LocomotiveSimulation";
+    fn warm(&mut self) {
+        self.loco_unit.warm();
+    }
+    fn hits(&self, p: &str, o: &mut Vec<String>) {
+        self.loco_unit.hits(&jp(p, "loco_unit"), o);
+    }
+}
+impl Obj for ConsistSimulation {
+    const NAME: &'static str = "ConsistSimulation";
+    fn warm(&mut self) {
+        self.loco_con.warm();
+    }
+    fn hits(&self, p: &str, o: &mut Vec<String>) {
+        self.loco_con.hits(&jp(p, "loco_con"), o);
+    }
+}
+impl Obj for SetSpeedTrainSim {
+    const NAME: &'static str = "SetSpeedTrainSim";
+    fn warm(&mut self) {
+        self.loco_con.warm();
+    }
+    fn hits(&self, p: &str, o: &mut Vec<String>) {
+        self.loco_con.hits(&jp(p, "loco_con"), o);
+        state_hit!(self, p, o);
+    }
+}
+impl Obj for FricBrake {
+    const NAME: &'static str = "FricBrake";
+    fn hits(&self, p: &str, o: &mut Vec<String>) {
+        state_hit!(self, p, o);
+    }
+}
+impl Obj for SpeedLimitTrainSim {
+    const NAME: &'static str = "SpeedLimitTrainSim";
+    fn warm(&mut self) {
+        self.loco_con.warm();
+    }
+    fn hits(&self, p: &str, o: &mut Vec<String>) {
+        self.loco_con.hits(&jp(p, "loco_con"), o);
+        state_hit!(self, p, o);
+        self.fric_brake.hits(&jp(p, "fric_brake"), o);
+    }
+}
+impl Obj for TrainConfig {
+    const NAME: &'static str = "TrainConfig";
+    fn hits(&self, p: &str, o: &mut Vec<String>) {
+        if self.cd_area_vec.is_none() {
+            o.push(jp(p, "cd_area_vec"));
+        }
+    }
+}
+impl Obj for TrainSimBuilder {
+    const NAME: &'static str = "TrainSimBuilder";
+    fn warm(&mut self) {
+        self.loco_con.warm();
+    }
+    fn hits(&self, p: &str, o: &mut Vec<String>) {
+        self.train_config.hits(&jp(p, "train_config"), o);
+        self.loco_con.hits(&jp(p, "loco_con"), o);
+    }
+}
+impl Obj for Link {
+    const NAME: &'static str = "link_impl::Link";
+    fn hits(&self, p: &str, o: &mut Vec<String>) {
+        if self.osm_id.is_none() {
+            o.push(jp(p, "osm_id"));
+        }
+        for (i, h) in self.headings.iter().enumerate() {
+            let q = jp(&jp(p, "headings"), &i.to_string());
+            if h.lat.is_none() {
+                o.push(jp(&q, "lat"));
+            }
+            if h.lon.is_none() {
+                o.push(jp(&q, "lon"));
+            }
+        }
+    }
+}
+impl Obj for Network {
+    const NAME: &'static str = "Network";
+    fn hits(&self, p: &str, o: &mut Vec<String>) {
+        for (i, l) in self.0.iter().enumerate() {
+            l.hits(&jp(p, &i.to_string()), o);
+        }
+    }
+}
+impl Obj for LocomotiveSimulationVec {
+    const NAME: &'static str = "LocomotiveSimulationVec";
+    fn warm(&mut self) {
+        for s in self.0.iter_mut() {
+            s.warm();
+        }
+    }
+    fn hits(&self, p: &str, o: &mut Vec<String>) {
+        for (i, l) in self.0.iter().enumerate() {
+            l.hits(&jp(p, &i.to_string()), o);
+        }
+    }
+}
+impl Obj for SpeedLimitTrainSimVec {
+    const NAME: &'static str = "SpeedLimitTrainSimVec";
+    fn warm(&mut self) {
+        for s in self.0.iter_mut() {
+            s.warm();
+        }
+    }
+    fn hits(&self, p: &str, o: &mut Vec<String>) {
+        for (i, l) in self.0.iter().enumerate() {
+            l.hits(&jp(p, &i.to_string()), o);
+        }
+    }
+}
+plain_obj!(PowerTrace, "PowerTrace");
+plain_obj!(SpeedTrace, "SpeedTrace");
+plain_obj!(InitTrainState, "InitTrainState");
+plain_obj!(TrainState, "TrainState");
+plain_obj!(TrainStateHistoryVec, "TrainStateHistoryVec");
+plain_obj!(PathTpc, "PathTpc");
+plain_obj!(TrainRes, "TrainRes");
+plain_obj!(BrakingPoints, "BrakingPoints");
+plain_obj!(EstTimeNet, "EstTimeNet");
+plain_obj!(LinkPath, "LinkPath");
+plain_obj!(TimedLinkPath, "TimedLinkPath");
+plain_obj!(Location, "Location");
+plain_obj!(RailVehicle, "RailVehicle");
+plain_obj!(TrainParams, "TrainParams");
+plain_obj!(SpeedSet, "SpeedSet");
+plain_obj!(FuelConverterState, "FuelConverterState");
+plain_obj!(FuelConverterStateHistoryVec, "FuelConverterStateHistoryVec");
+plain_obj!(ConsistState, "ConsistState");
+plain_obj!(ConsistStateHistoryVec, "ConsistStateHistoryVec");
+plain_obj!(LocomotiveState, "LocomotiveState");
+plain_obj!(ReversibleEnergyStorageState, "ReversibleEnergyStorageState");
+
+// ------------------------------------------------------------------ the per-object check
+
+struct Run<'a> {
+    ctx: &'a mut Ctx,
+    /// inputs attached to findings, per clause (kept small)
+    n_inputs: BTreeMap<String, usize>,
+    max_ulps_json: u64,
+    max_rel_json_resume: f64,
+    files: bool,
+    tmp: std::path::PathBuf,
+    n_obj: u64,
+}
+
+impl<'a> Run<'a> {
+    fn fail<T: Obj>(&mut self, clause: &str, case: &str, detail: String, x: &T, f: Fmt) {
+        let n = self.n_inputs.entry(clause.to_string()).or_insert(0);
+        *n += 1;
+        let input = if *n <= 3 {
+            let y = x.to_yaml().unwrap_or_default();
+            json!({"type": T::NAME, "format": f.name(), "case": case,
+                   "object_yaml": if y.len() < 400_000 { y } else { format!("(omitted: {} bytes)", y.len()) },
+                   "replay": "T::from_yaml(object_yaml) gives the object (bit-exact); then save/load it in `format` through SerdeAPI"})
+        } else {
+            serde_json::Value::Null
+        };
+        self.ctx.fail(P, clause, case, detail, input);
+    }
+
+    /// all round-trip clauses on one object; returns the reloaded copies (for resuming simulations)
+    fn check<T: Obj>(&mut self, case: &str, kind: &str, x: &T, emit_ops: bool) -> Vec<(Fmt, T)> {
+        self.n_obj += 1;
+        let tx = tree(x);
+        let mut hits = vec![];
+        x.hits("", &mut hits);
+        hits.sort();
+        let hit = !hits.is_empty();
+        let nonfinite = has_nonfinite(&tx);
+        let nan = has_nan(&tx);
+        let extreme = has_extreme(&tx);
+        self.ctx.count(&format!("serde.obj.{}.{}", T::NAME, kind));
+        self.ctx.count(&format!("serde.class.{}{}", if hit { "skipped_field_at_default" } else { "no_skipped_field" }, if nonfinite { "+nonfinite" } else { "" }));
+        let mut out = vec![];
+        let mut bin_ok_equal = false;
+        for f in FMTS {
+            let fname = f.name();
+            self.ctx.checked(P, &format!("roundtrip_{fname}"));
+            let r = guard(|| save_load(x, f));
+            let x1 = match r {
+                None => {
+                    self.fail(&format!("roundtrip_{fname}"), case, format!("format={fname} type={} state={kind}: save/load PANICKED", T::NAME), x, f);
+                    continue;
+                }
+                Some(Err(e)) => {
+                    let e: String = e.chars().take(300).collect();
+                    if f == Fmt::Bin && hit {
+                        self.ctx.count("serde.known.bin_desync");
+                        self.fail(CL_BIN_DESYNC, case, format!("format=bin type={} state={kind}: conditionally skipped field(s) at default {:?}; {}", T::NAME, &hits[..hits.len().min(4)], e), x, f);
+                    } else if f == Fmt::Json && nonfinite {
+                        self.ctx.count("serde.known.json_nonfinite");
+                        self.fail(CL_JSON_NONFINITE, case, format!("format=json type={} state={kind}: object contains a non-finite number (written as null); {}", T::NAME, e), x, f);
+                    } else {
+                        self.fail(&format!("roundtrip_{fname}"), case, format!("format={fname} type={} state={kind}: save/load failed: {}", T::NAME, e), x, f);
+                    }
+                    continue;
+                }
+                Some(Ok(x1)) => x1,
+            };
+            self.ctx.count(&format!("serde.rt_ok.{fname}"));
+            // --- the reloaded object equals the original (modulo `skip` caches)
+            let t1 = tree(&x1);
+            // serde_json's default float parser is within 1 ulp except at extreme exponents (measured:
+            // 2 ulps around 1e-77); objects holding such magnitudes (corpus only) get 2
+            let tol = if f == Fmt::Json { Tol::Ulps(if extreme { 2 } else { 1 }) } else { Tol::Bits };
+            let (r1, c1) = cmp_trees(&t1, &tx, tol);
+            self.ctx.checked(P, &format!("reload_equal_{fname}"));
+            if f == Fmt::Json {
+                if !extreme {
+                    self.max_ulps_json = self.max_ulps_json.max(c1.max_ulps.min(1 << 20));
+                } else if c1.max_ulps > 1 {
+                    self.ctx.count("serde.json.extreme_exponent_off_by_2ulps");
+                }
+                self.ctx.count_n("serde.json.numbers", c1.n_numbers);
+                self.ctx.count_n("serde.json.numbers_inexact", c1.n_inexact);
+            }
+            let mut eq1 = r1.is_ok();
+            if let Err(d) = r1 {
+                self.fail(&format!("reload_equal_{fname}"), case, format!("format={fname} type={} state={kind}: reloaded object differs from the original at {}", T::NAME, d), x, f);
+            } else if f != Fmt::Json && !nan {
+                // the type's own equality, caches populated on both sides
+                let (mut a, mut b) = (x1.clone(), x.clone());
+                a.warm();
+                b.warm();
+                self.ctx.checked(P, &format!("reload_partial_eq_{fname}"));
+                if a != b {
+                    eq1 = false;
+                    self.fail(&format!("reload_partial_eq_{fname}"), case, format!("format={fname} type={} state={kind}: reloaded object is not == the original (after repopulating the skip caches) although every serialized field is bit-identical", T::NAME), x, f);
+                }
+            }
+            if f == Fmt::Bin {
+                bin_ok_equal = eq1;
+                if hit {
+                    self.ctx.count("serde.bin.ok_despite_skipped_field");
+                }
+            }
+            // --- saving and reloading again returns an equal object
+            self.ctx.checked(P, &format!("second_roundtrip_{fname}"));
+            match guard(|| save_load(&x1, f)) {
+                Some(Ok(x2)) => {
+                    let t2 = tree(&x2);
+                    let (r2, c2) = cmp_trees(&t2, &t1, tol);
+                    if let Err(d) = r2 {
+                        self.fail(&format!("second_roundtrip_{fname}"), case, format!("format={fname} type={} state={kind}: second round trip changed the object at {}", T::NAME, d), x, f);
+                    } else if f != Fmt::Json && !nan && x2 != x1 {
+                        self.fail(&format!("second_roundtrip_{fname}"), case, format!("format={fname} type={} state={kind}: x2 != x1 by PartialEq", T::NAME), x, f);
+                    }
+                    if f == Fmt::Json {
+                        if c2.n_inexact == 0 { self.ctx.count("serde.json.second_trip_exact"); } else { self.ctx.count("serde.json.second_trip_inexact"); }
+                        // repeated round trips do not drift: after four trips still within 1 ulp of the original
+                        self.ctx.checked(P, "json_no_drift");
+                        let mut cur = x2;
+                        let mut ok = true;
+                        for _ in 0..2 {
+                            match save_load(&cur, f) {
+                                Ok(n) => cur = n,
+                                Err(_) => { ok = false; break; }
+                            }
+                        }
+                        let (r4, _) = cmp_trees(&tree(&cur), &tx, tol);
+                        if !ok || r4.is_err() {
+                            self.fail("json_no_drift", case, format!("format=json type={} state={kind}: after 4 round trips the object is more than 1 ulp away from the original: {:?}", T::NAME, r4.err()), x, f);
+                        }
+                    }
+                }
+                Some(Err(e)) => {
+                    let e: String = e.chars().take(300).collect();
+                    self.fail(&format!("second_roundtrip_{fname}"), case, format!("format={fname} type={} state={kind}: the reloaded object cannot be saved/loaded again: {}", T::NAME, e), x, f);
+                }
+                None => self.fail(&format!("second_roundtrip_{fname}"), case, format!("format={fname} type={} state={kind}: second round trip PANICKED", T::NAME), x, f),
+            }
+            out.push((f, x1));
+        }
+        // --- file API (extension dispatch), now and then
+        if self.files && self.n_obj % 7 == 1 {
+            for (ext, f) in [("yaml", Fmt::Yaml), ("json", Fmt::Json), ("bin", Fmt::Bin)] {
+                if (f == Fmt::Bin && hit) || (f == Fmt::Json && nonfinite) {
+                    continue;
+                }
+                let path = self.tmp.join(format!("c17_{}.{}", self.n_obj, ext));
+                self.ctx.checked(P, "file_roundtrip");
+                let r = guard(|| -> Result<T, String> {
+                    x.to_file(&path).map_err(|e| format!("to_file: {e:#}"))?;
+                    T::from_file(&path).map_err(|e| format!("from_file: {e:#}"))
+                });
+                let _ = std::fs::remove_file(&path);
+                let ok = match &r {
+                    Some(Ok(x1)) => cmp_trees(&tree(x1), &tx, if f == Fmt::Json { Tol::Ulps(if extreme { 2 } else { 1 }) } else { Tol::Bits }).0.is_ok(),
+                    _ => false,
+                };
+                if !ok {
+                    self.fail("file_roundtrip", case, format!("format={ext} type={} state={kind}: to_file/from_file failed or returned a different object: {:?}", T::NAME, r.map(|x| x.err())), x, f);
+                }
+            }
+        }
+        // --- correspondence with the structural model
+        if emit_ops {
+            let mut sh = String::new();
+            shape(&tx, &mut sh);
+            let args = format!("{}{}", pct(T::NAME), sh);
+            self.ctx.op(P, "serde_shape", &args, &format!("ok {} |{}", seq(&hits, |s| s.clone()), sh));
+            let nbytes = x.to_bincode().map(|b| b.len()).unwrap_or(0);
+            self.ctx.op(P, "serde_bin", &args, &format!("ok {} {}", nbytes, b(bin_ok_equal)));
+            self.ctx.count(if hit { "serde.ops.with_omitted_field" } else { "serde.ops.nothing_omitted" });
+        }
+        out
+    }
+}
+
+// ------------------------------------------------------------------ simulations: checkpoint / resume
+
+trait Sim: Obj {
+    fn step1(&mut self) -> Result<(), String>;
+    fn finished(&self) -> bool;
+}
+impl Sim for LocomotiveSimulation {
+    fn step1(&mut self) -> Result<(), String> {
+        self.step().map_err(|e| format!("{e:#}"))
+    }
+    fn finished(&self) -> bool {
+        self.i >= self.power_trace.len()
+    }
+}
+impl Sim for ConsistSimulation {
+    fn step1(&mut self) -> Result<(), String> {
+        self.step().map_err(|e| format!("{e:#}"))
+    }
+    fn finished(&self) -> bool {
+        self.i >= self.power_trace.len()
+    }
+}
+impl Sim for SetSpeedTrainSim {
+    fn step1(&mut self) -> Result<(), String> {
+        self.step().map_err(|e| format!("{e:#}"))
+    }
+    fn finished(&self) -> bool {
+        self.state.i >= self.speed_trace.time.len()
+    }
+}
+impl Sim for SpeedLimitTrainSim {
+    fn step1(&mut self) -> Result<(), String> {
+        self.step().map_err(|e| format!("{e:#}"))
+    }
+    fn finished(&self) -> bool {
+        // the loop condition of `walk_internal`
+        let end = self.path_tpc.offset_end();
+        !(self.state.offset < end - 1000.0 * uc::FT || (self.state.offset < end && self.state.speed.value != 0.0))
+    }
+}
+
+/// outcome of running `n` more steps: per step ok / err / panic, stopping at the first non-ok
+fn advance<S: Sim>(s: &mut S, n: usize) -> Vec<u8> {
+    let mut v = vec![];
+    for _ in 0..n {
+        if s.finished() {
+            break;
+        }
+        match guard(|| s.step1()) {
+            Some(Ok(())) => v.push(0),
+            Some(Err(_)) => {
+                v.push(1);
+                break;
+            }
+            None => {
+                v.push(2);
+                break;
+            }
+        }
+    }
+    v
+}
+
+impl<'a> Run<'a> {
+    /// run `n` steps uninterrupted; at every step index save + load in every format, resume from
+    /// the loaded copy and require the same remaining trajectory and final totals
+    fn checkpoints<S: Sim>(&mut self, case: &str, sim0: &S, n: usize, ops_every: usize) {
+        let mut snaps: Vec<S> = vec![sim0.clone()];
+        let mut cur = sim0.clone();
+        let mut outcome: Vec<u8> = vec![];
+        for _ in 0..n {
+            if cur.finished() {
+                break;
+            }
+            let o = advance(&mut cur, 1);
+            if o.is_empty() {
+                break;
+            }
+            outcome.push(o[0]);
+            if o[0] != 0 {
+                break;
+            }
+            snaps.push(cur.clone());
+        }
+        let fin = cur; // the uninterrupted run after all steps (possibly a failed last step)
+        let tfin = tree(&fin);
+        let scale = max_abs(&tfin);
+        self.ctx.count(&format!("serde.sim.{}.steps.{}", S::NAME, if outcome.len() >= 20 { "20+".to_string() } else if outcome.len() >= 5 { "5-19".into() } else { format!("{}", outcome.len()) }));
+        if outcome.last().map(|o| *o != 0).unwrap_or(false) {
+            self.ctx.count(&format!("serde.sim.{}.ends_in_error", S::NAME));
+        }
+        for (k, x) in snaps.iter().enumerate() {
+            let kind = if k == 0 { "initial" } else { "midrun" };
+            let copies = self.check(&format!("{case}@{k}"), kind, x, ops_every > 0 && k % ops_every == 0);
+            for (f, x1) in copies {
+                let fname = f.name();
+                let mut y = x1;
+                let got = advance(&mut y, outcome.len() - k);
+                self.ctx.checked(P, &format!("resume_same_decisions_{fname}"));
+                self.ctx.count(&format!("serde.resume.{fname}"));
+                if got != outcome[k..] {
+                    self.fail(&format!("resume_same_decisions_{fname}"), &format!("{case}@{k}"),
+                        format!("format={fname} type={} checkpoint={k}: resumed run step outcomes {:?} differ from the uninterrupted run {:?} (0 ok, 1 err, 2 panic)", S::NAME, got, &outcome[k..]), x, f);
+                    continue;
+                }
+                self.ctx.checked(P, &format!("resume_same_trajectory_{fname}"));
+                let ty = tree(&y);
+                let tol = if f == Fmt::Json { Tol::Close { rel: 1e-9, abs: 1e-12 * scale } } else { Tol::Bits };
+                let (r, c) = cmp_trees(&ty, &tfin, tol);
+                if f == Fmt::Json {
+                    self.max_rel_json_resume = self.max_rel_json_resume.max(c.max_rel);
+                    if c.n_inexact == 0 { self.ctx.count("serde.resume.json.bit_exact"); } else { self.ctx.count("serde.resume.json.rounding_level"); }
+                }
+                if let Err(d) = r {
+                    self.fail(&format!("resume_same_trajectory_{fname}"), &format!("{case}@{k}"),
+                        format!("format={fname} type={} checkpoint={k}: run resumed from the loaded copy ends differently from the uninterrupted run at {}", S::NAME, d), x, f);
+                } else if f != Fmt::Json && !has_nan(&tfin) {
+                    let (mut a, mut bb) = (y.clone(), fin.clone());
+                    a.warm();
+                    bb.warm();
+                    if a != bb {
+                        self.fail(&format!("resume_same_trajectory_{fname}"), &format!("{case}@{k}"),
+                            format!("format={fname} type={} checkpoint={k}: resumed final object != uninterrupted final object (PartialEq)", S::NAME), x, f);
+                    }
+                }
+            }
+        }
+    }
+}
+
+// ------------------------------------------------------------------ generators
+
+fn gen_power_trace(r: &mut Rng, n: usize, lo: f64, hi: f64, first_brakes: bool) -> PowerTrace {
+    let mut t = vec![0.0];
+    let mut p = vec![0.0];
+    let mut cur: f64 = 0.0;
+    for i in 0..n {
+        let dt = *r.pick(&[0.5, 1.0, 1.0, 1.0, 2.0]);
+        t.push(t.last().unwrap() + dt);
+        let step = (hi - lo) * 0.08;
+        cur = (cur + r.f64_in(-step, step * 1.5)).max(lo).min(hi);
+        if i == 0 && first_brakes {
+            cur = lo * 0.5;
+        }
+        if r.chance(0.1) {
+            cur = 0.0;
+        }
+        p.push(cur);
+    }
+    let on: Vec<Option<bool>> = (0..t.len()).map(|_| if r.chance(0.85) { Some(true) } else if r.chance(0.5) { None } else { Some(false) }).collect();
+    PowerTrace::new(t, p, on)
+}
+
+fn rating(l: &Locomotive) -> f64 {
+    match &l.loco_type {
+        PowertrainType::ConventionalLoco(c) => c.edrv.pwr_out_max.value.min(c.gen.pwr_out_max.value).min(c.fc.pwr_out_max.value),
+        PowertrainType::BatteryElectricLoco(b) => b.edrv.pwr_out_max.value.min(b.res.pwr_out_max.value),
+        PowertrainType::HybridLoco(h) => h.edrv.pwr_out_max.value,
+        PowertrainType::DummyLoco(_) => 1.0e6,
+    }
+}
+fn is_bel(l: &Locomotive) -> bool {
+    matches!(l.loco_type, PowertrainType::BatteryElectricLoco(_))
+}
+
+fn gen_loco_sim(r: &mut Rng, n: usize) -> LocomotiveSimulation {
+    let loco = match r.below(6) {
+        0 => Locomotive::default(),
+        1 => Locomotive::default_battery_electric_loco(),
+        2 => Locomotive::default_hybrid_electric_loco(),
+        3 | 4 => gen_loco(r, false),
+        _ => gen_loco(r, true),
+    };
+    let pr = rating(&loco);
+    let lo = if is_bel(&loco) { -0.2 * pr } else { 0.0 };
+    let pt = gen_power_trace(r, n, lo, 0.35 * pr, false);
+    let si = *r.pick(&[Some(1), Some(1), Some(1), Some(3), None]);
+    LocomotiveSimulation::new(loco, pt, si)
+}
+
+fn gen_consist_any(r: &mut Rng) -> Consist {
+    match r.below(4) {
+        0 => Consist::default(),
+        _ => {
+            let mut c = gen_consist(r, 4);
+            if r.chance(0.3) {
+                c.set_assert_limits(false);
+            }
+            c
+        }
+    }
+}
+
+fn gen_consist_sim(r: &mut Rng, n: usize) -> ConsistSimulation {
+    let con = gen_consist_any(r);
+    let total: f64 = con.loco_vec.iter().map(rating).sum();
+    let regen: f64 = con.loco_vec.iter().filter(|l| is_bel(l)).map(rating).sum();
+    let first_brakes = r.chance(0.4);
+    // a first step that brakes exercises the derived limit `pwr_dyn_brake_max` of a fresh consist
+    let lo = if first_brakes { -0.05 * total } else { -0.15 * regen };
+    let pt = gen_power_trace(r, n, lo, 0.3 * total, first_brakes);
+    let si = *r.pick(&[Some(1), Some(1), Some(2), None]);
+    ConsistSimulation::new(con, pt, si)
+}
+
+struct Route {
+    net: Vec<Link>,
+    route: Vec<LinkIdx>,
+    tp: TrainParams,
+}
+
+fn gen_route(r: &mut Rng) -> Option<Route> {
+    let o = NetOpts {
+        n_links: r.usize(1, 3),
+        grid: 1.0,
+        len_lo: 1500,
+        len_hi: 5000,
+        max_elev_pts: 4,
+        max_grade: 0.01,
+        max_speed_limits: 2,
+        speed_lo: 8.0,
+        use_speed_sets_map: false,
+        cat_power: r.chance(0.5),
+        ..Default::default()
+    };
+    let net = gen_line(r, &o);
+    if net.validate().is_err() {
+        return None;
+    }
+    let tp = TrainParams {
+        length: m(r.range(200, 1200) as f64 * 0.5),
+        speed_max: mps(r.range(30, 60) as f64 * 0.5),
+        towed_mass_static: uc::KG * *r.pick(&[2.0e6, 5.0e6]),
+        mass_per_brake: uc::KG * 1.3e5,
+        axle_count: 400,
+        train_type: TrainType::Freight,
+        curve_coeff_0: uc::R * *r.pick(&[0.0, 0.3]),
+        curve_coeff_1: uc::R * *r.pick(&[0.0, 0.5]),
+        curve_coeff_2: uc::R * 0.0,
+    };
+    Some(Route { route: route_fwd(o.n_links), net, tp })
+}
+
+fn make_res(r: &mut Rng, tpc: &PathTpc, st: &TrainState) -> Option<TrainRes> {
+    let grade = path_res::Strap::new(tpc.grades(), st).ok()?;
+    let curve = path_res::Strap::new(tpc.curves(), st).ok()?;
+    Some(TrainRes::Strap(method::Strap::new(
+        bearing::Basic::new(uc::LBF * 40.0 * *r.pick(&[50.0, 100.0])),
+        rolling::Basic::new(uc::R * (*r.pick(&[1.0, 1.5]) * uc::LB.value / uc::TON.value)),
+        davis_b::Basic::new((*r.pick(&[0.0, 0.03]) / uc::MPH.value * uc::LB.value / uc::TON.value) * uc::SPM),
+        aerodynamic::Basic::new(uc::M2 * *r.pick(&[0.0, 20.0, 60.0])),
+        grade,
+        curve,
+    )))
+}
+
+fn gen_train_consist(r: &mut Rng) -> Consist {
+    let n = r.usize(2, 4);
+    let locos: Vec<Locomotive> = (0..n)
+        .map(|_| {
+            if r.chance(0.7) {
+                if r.chance(0.6) { Locomotive::default() } else { Locomotive::default_battery_electric_loco() }
+            } else {
+                let bel = r.chance(0.4);
+                gen_loco(r, bel)
+            }
+        })
+        .collect();
+    let pdct = if r.chance(0.5) { PowerDistributionControlType::Proportional(Proportional) } else { PowerDistributionControlType::RESGreedy(RESGreedy) };
+    Consist::new(locos, None, pdct)
+}
+
+fn train_state(tp: &TrainParams) -> TrainState {
+    let len = tp.length.value;
+    let mass_static = tp.towed_mass_static.value + 4.0 * 195000.0;
+    TrainState::new(m(len), uc::KG * mass_static, uc::KG * (mass_static * 0.04), uc::KG * (mass_static * 0.6),
+        Some(InitTrainState::new(Some(uc::S * 0.0), Some(m(len)), Some(mps(0.0)))))
+}
+
+/// a set-speed run on a generated route; `finish` = the path carries the +inf sentinel offsets
+fn gen_set_speed(r: &mut Rng, n: usize, finish: bool) -> Option<SetSpeedTrainSim> {
+    let ro = gen_route(r)?;
+    let mut tpc = PathTpc::new(ro.tp);
+    tpc.extend(&ro.net, &ro.route).ok()?;
+    if finish {
+        tpc.finish();
+    }
+    let st0 = train_state(&ro.tp);
+    let res = make_res(r, &tpc, &st0)?;
+    let con = gen_train_consist(r);
+    let first_brakes = r.chance(0.3);
+    let mut time = vec![0.0];
+    let mut v: f64 = if first_brakes { 3.0 } else { 0.0 };
+    let mut speed = vec![v];
+    let total = tpc.link_points().last()?.offset.value;
+    let mut dist = 0.0;
+    for i in 0..n {
+        let dt = *r.pick(&[0.5, 1.0, 1.0, 2.0]);
+        let a = if i == 0 && first_brakes { -0.5 } else { *r.pick(&[-0.4, -0.1, 0.0, 0.05, 0.15, 0.3]) };
+        let nv = (v + a * dt).max(0.0).min(ro.tp.speed_max.value);
+        let d = 0.5 * (v + nv) * dt;
+        if ro.tp.length.value + dist + d > total - 50.0 {
+            break;
+        }
+        dist += d;
+        v = nv;
+        time.push(time.last().unwrap() + dt);
+        speed.push(v);
+    }
+    if time.len() < 3 {
+        return None;
+    }
+    let mut st = st0;
+    st.speed = mps(speed[0]);
+    let np = time.len();
+    let trace = SpeedTrace::new(time, speed, if r.chance(0.3) { Some(vec![true; np]) } else { None });
+    let si = *r.pick(&[Some(1), Some(1), Some(2), None]);
+    Some(SetSpeedTrainSim::new(con, st, trace, res, tpc, si))
+}
+
+fn gen_speed_limit(r: &mut Rng, finish: bool) -> Option<SpeedLimitTrainSim> {
+    let ro = gen_route(r)?;
+    let st0 = train_state(&ro.tp);
+    let mass_static = st0.mass_static.value;
+    let mut sim = SpeedLimitTrainSim::valid();
+    sim.train_id = (*r.pick(&["", "train 7", "Zug-ä/1"])).to_string();
+    sim.path_tpc = PathTpc::new(ro.tp);
+    sim.loco_con = gen_train_consist(r);
+    sim.state = st0;
+    sim.fric_brake = FricBrake::new(uc::N * (mass_static * *r.pick(&[0.3, 0.6, 1.0])), uc::S * *r.pick(&[0.0, 30.0, 60.0]), uc::R * 0.5, None, None);
+    sim.set_save_interval(*r.pick(&[Some(1), Some(1), Some(2), None]));
+    if r.chance(0.5) {
+        sim.origs = vec![Location { location_id: "Origin A".into(), offset: m(0.0), link_idx: LinkIdx::new(1), is_front_end: r.chance(0.5),
+            grid_emissions_region: "R 1".into(), electricity_price_region: "CA".into(), liquid_fuel_price_region: "CA".into() }];
+    }
+    guard(|| sim.extend_path(&ro.net, &ro.route))?.ok()?;
+    if finish {
+        sim.finish();
+    }
+    sim.train_res = make_res(r, &sim.path_tpc, &st0)?;
+    guard(|| sim.extend_path(&ro.net, &[]))?.ok()?;
+    Some(sim)
+}
+
+fn gen_link_any(r: &mut Rng) -> Vec<Link> {
+    let o = NetOpts { n_links: r.usize(1, 4), with_flips: r.chance(0.4), use_speed_sets_map: r.chance(0.5), cat_power: r.chance(0.5), speed_params: r.chance(0.5), ..Default::default() };
+    let mut net = gen_line(r, &o);
+    for l in net.iter_mut().skip(1) {
+        if r.chance(0.5) {
+            l.osm_id = Some((*r.pick(&["way/1234", "", "ünï cödé", "a b"])).to_string());
+        }
+        for h in l.headings.iter_mut() {
+            if r.chance(0.5) {
+                h.lat = Some(r.f64_in(-80.0, 80.0));
+            }
+            if r.chance(0.5) {
+                h.lon = Some(r.f64_in(-180.0, 180.0));
+            }
+        }
+    }
+    net
+}
+
+fn gen_est_time_net(r: &mut Rng) -> EstTimeNet {
+    let n = r.usize(0, 12);
+    let mut v = vec![];
+    let mut t = r.f64_in(0.0, 1000.0);
+    for k in 0..n {
+        let mut e = EstTime::default();
+        // fake nodes keep the crate's NaN scheduled time
+        if r.chance(0.8) {
+            e.time_sched = uc::S * t;
+        }
+        e.time_to_next = uc::S * r.f64_in(0.0, 300.0);
+        e.dist_to_next = m(r.f64_in(0.0, 4000.0));
+        e.speed = mps(r.f64_in(0.0, 30.0));
+        e.idx_next = (k + 1) as u32;
+        e.idx_prev = k.saturating_sub(1) as u32;
+        e.link_event = LinkEvent { link_idx: LinkIdx::new(r.below(40) as u32), est_type: *r.pick(&[EstType::Arrive, EstType::Clear, EstType::Fake]) };
+        t += e.time_to_next.value;
+        v.push(e);
+    }
+    EstTimeNet::new(v)
+}
+
+// ------------------------------------------------------------------ run
+
+pub fn run(ctx: &mut Ctx, r: &mut Rng, tier: &str) {
+    let thorough = tier == "thorough";
+    let tmp = std::env::temp_dir().join(format!("verif-c17-{}", std::process::id()));
+    let _ = std::fs::create_dir_all(&tmp);
+    let mut run = Run { ctx, n_inputs: BTreeMap::new(), max_ulps_json: 0, max_rel_json_resume: 0.0, files: true, tmp: tmp.clone(), n_obj: 0 };
+
+    // ---- every exported type in its default state (corpus: runs first, independent of the seed)
+    run.check("default", "default", &FuelConverter::default(), true);
+    run.check("default", "default", &Generator::default(), true);
+    run.check("default", "default", &ElectricDrivetrain::default(), true);
+    run.check("default", "default", &ReversibleEnergyStorage::default(), true);
+    run.check("default.conv", "default", &Locomotive::default(), true);
+    run.check("default.bel", "default", &Locomotive::default_battery_electric_loco(), true);
+    run.check("default.hybrid", "default", &Locomotive::default_hybrid_electric_loco(), true);
+    {
+        let mut d = Locomotive::default();
+        d.loco_type = PowertrainType::DummyLoco(DummyLoco::default());
+        if std::env::var("C17_DEBUG").is_ok() {
+            let y = d.to_yaml().unwrap();
+            eprintln!("{}", &y[..y.len().min(600)]);
+            eprintln!("{:?}", Locomotive::from_yaml(&y).map(|l| l.loco_type.to_string()).map_err(|e| format!("{e:#}")));
+            let l2: Locomotive = serde_yaml::from_str(&y).unwrap();
+            eprintln!("raw load type: {}", l2.loco_type.to_string());
+        }
+        run.check("default.dummy", "default", &d, true);
+    }
+    run.check("default", "default", &Consist::default(), true);
+    run.check("default", "default", &PowerTrace::default(), true);
+    run.check("default", "default", &SpeedTrace::default(), true);
+    run.check("valid", "default", &TrainConfig::valid(), true);
+    run.check("default", "default", &TrainConfig::default(), true);
+    run.check("default", "default", &TrainSimBuilder::default(), true);
+    run.check("valid+nan_offset", "default", &TrainSimBuilder::new("t1".into(), TrainConfig::valid(), Consist::default(), None, None, Some(InitTrainState::default())), true);
+    run.check("default(nan offset)", "default", &InitTrainState::default(), true);
+    run.check("default", "default", &TrainState::default(), true);
+    run.check("valid", "default", &TrainState::valid(), true);
+    run.check("default", "default", &PathTpc::default(), true);
+    run.check("valid(finished:+inf)", "default", &PathTpc::valid(), true);
+    run.check("valid", "default", &Link::valid(), true);
+    run.check("default", "default", &Link::default(), true);
+    run.check("valid", "default", &Network(Vec::<Link>::valid()), true);
+    run.check("valid", "default", &TrainRes::valid(), true);
+    run.check("default", "default", &FricBrake::default(), true);
+    run.check("default", "default", &BrakingPoints::default(), true);
+    run.check("default", "default", &LocomotiveSimulation::default(), true);
+    run.check("default", "default", &ConsistSimulation::default(), true);
+    run.check("default", "default", &SetSpeedTrainSim::default(), true);
+    run.check("default", "default", &SpeedLimitTrainSim::default(), true);
+    run.check("valid", "default", &SpeedLimitTrainSim::valid(), true);
+    run.check("fwd", "default", &speed_limit_train_sim_fwd(), true);
+    run.check("default", "default", &EstTimeNet::default(), true);
+    run.check("default", "default", &LinkPath(vec![LinkIdx::new(3), LinkIdx::new(0), LinkIdx::new(u32::MAX)]), true);
+    run.check("default", "default", &TimedLinkPath(vec![LinkIdxTime { link_idx: LinkIdx::new(2), time: uc::S * 12.5 }]), true);
+    run.check("default", "default", &RailVehicle::default(), true);
+    run.check("valid", "default", &TrainParams::valid(), true);
+    run.check("valid", "default", &SpeedSet::valid(), true);
+    run.check("default", "default", &FuelConverterState::default(), true);
+    run.check("default", "default", &ConsistState::default(), true);
+    run.check("default", "default", &LocomotiveState::default(), true);
+    run.check("default", "default", &ReversibleEnergyStorageState::default(), true);
+    run.check("default", "default", &FuelConverterStateHistoryVec::default(), true);
+    run.check("default", "default", &LocomotiveSimulationVec(vec![LocomotiveSimulation::default(); 2]), true);
+    run.check("default", "default", &SpeedLimitTrainSimVec(vec![SpeedLimitTrainSim::valid()]), true);
+    // non-finite corpus: what do the three formats do with NaN / ±inf inside traces
+    {
+        let mut pt = PowerTrace::new(vec![0.0, 1.0, 2.0], vec![0.0, f64::INFINITY, f64::NEG_INFINITY], vec![Some(true), None, Some(false)]);
+        run.check("corpus.inf", "corpus", &pt, true);
+        pt.pwr[1] = uc::W * f64::NAN;
+        run.check("corpus.nan", "corpus", &pt, true);
+        // extreme magnitudes, signed zero, subnormals: text codecs
+        let pt2 = PowerTrace::new(vec![0.0, -0.0, 5e-324, 2.2250738585072014e-308, 1.7976931348623157e308],
+            vec![1e-77, 3.0e-200, 0.1 + 0.2, 1.0 / 3.0, 123456789.12345679], vec![None; 5]);
+        run.check("corpus.extreme", "corpus", &pt2, true);
+    }
+
+    // ---- generated objects in construction state
+    let n_comp = if thorough { 60 } else { 6 };
+    for i in 0..n_comp {
+        let mut q = r.fork();
+        let c = format!("gen{i}");
+        run.check(&c, "generated", &gen_fc(&mut q), i < 3);
+        run.check(&c, "generated", &gen_gen(&mut q, 3.0e6), i < 3);
+        run.check(&c, "generated", &gen_edrv(&mut q, 3.0e6), i < 3);
+        run.check(&c, "generated", &gen_res(&mut q), i < 3);
+        let bel = q.chance(0.5);
+        run.check(&c, "generated", &gen_loco(&mut q, bel), i < 3);
+        run.check(&c, "generated", &gen_consist_any(&mut q), i < 3);
+        let net = gen_link_any(&mut q);
+        run.check(&c, "generated", &net[net.len() - 1], true);
+        run.check(&c, "generated", &Network(net), i < 3);
+        run.check(&c, "generated", &gen_est_time_net(&mut q), i < 3);
+        let mut tc = TrainConfig::valid();
+        if q.chance(0.5) {
+            tc.cd_area_vec = Some((0..100).map(|_| uc::M2 * q.f64_in(1.0, 12.0)).collect());
+        }
+        if q.chance(0.5) {
+            tc.train_length = Some(m(q.f64_in(100.0, 3000.0)));
+        }
+        tc.n_cars_by_type = HashMap::from([("Bulk".to_string(), 60u32), ("Inter modal".to_string(), 40u32)]);
+        run.check(&c, "generated", &tc, true);
+        let its = if q.chance(0.5) { Some(InitTrainState::new(Some(uc::S * 5.0), Some(m(700.0)), None)) } else { None };
+        run.check(&c, "generated", &TrainSimBuilder::new(format!("train {i}"), tc, gen_consist_any(&mut q), None, if q.chance(0.5) { Some("dest".into()) } else { None }, its), i < 3);
+        if let Some(ro) = gen_route(&mut q) {
+            let mut tpc = PathTpc::new(ro.tp);
+            if tpc.extend(&ro.net, &ro.route).is_ok() {
+                run.check(&c, "generated", &tpc, i < 3);
+                tpc.finish();
+                run.check(&format!("{c}.finished"), "generated", &tpc, i < 3);
+            }
+        }
+    }
+
+    // ---- simulations: every step index is a checkpoint
+    let (n_sims, n_steps) = if thorough { (24, 40) } else { (2, 14) };
+    for i in 0..n_sims {
+        let mut q = r.fork();
+        let s = gen_loco_sim(&mut q, n_steps);
+        run.checkpoints(&format!("loco_sim{i}"), &s, n_steps, 5);
+        let mut q = r.fork();
+        let s = gen_consist_sim(&mut q, n_steps);
+        run.checkpoints(&format!("consist_sim{i}"), &s, n_steps, 5);
+        let mut q = r.fork();
+        if let Some(s) = gen_set_speed(&mut q, n_steps, i % 2 == 0) {
+            run.checkpoints(&format!("set_speed{i}{}", if i % 2 == 0 { ".finished" } else { "" }), &s, n_steps, 7);
+        } else {
+            run.ctx.count("serde.gen.set_speed_rejected");
+        }
+        let mut q = r.fork();
+        if let Some(s) = gen_speed_limit(&mut q, i % 2 == 1) {
+            run.checkpoints(&format!("speed_limit{i}{}", if i % 2 == 1 { ".finished" } else { "" }), &s, n_steps, 7);
+            // parts of a train simulation in a state reached during the run
+            let mut t = s.clone();
+            advance(&mut t, n_steps / 2);
+            let c = format!("speed_limit{i}.part");
+            run.check(&c, "midrun", &t.state, true);
+            run.check(&c, "midrun", &t.history, false);
+            run.check(&c, "midrun", &t.path_tpc, false);
+            run.check(&c, "midrun", &t.train_res, true);
+            run.check(&c, "midrun", &t.braking_points, true);
+            run.check(&c, "midrun", &t.fric_brake, true);
+            run.check(&c, "midrun", &t.loco_con, true);
+            for l in t.loco_con.loco_vec.iter().take(2) {
+                run.check(&c, "midrun", l, true);
+                match &l.loco_type {
+                    PowertrainType::ConventionalLoco(cv) => {
+                        run.check(&c, "midrun", &cv.fc, true);
+                        run.check(&c, "midrun", &cv.gen, true);
+                        run.check(&c, "midrun", &cv.edrv, true);
+                        run.check(&c, "midrun", &cv.fc.history, false);
+                    }
+                    PowertrainType::BatteryElectricLoco(bl) => {
+                        run.check(&c, "midrun", &bl.res, true);
+                        run.check(&c, "midrun", &bl.edrv, true);
+                    }
+                    _ => {}
+                }
+            }
+        } else {
+            run.ctx.count("serde.gen.speed_limit_rejected");
+        }
+    }
+    // the crate's own default simulations, stepped
+    run.checkpoints("consist_sim.default", &ConsistSimulation::default(), if thorough { 30 } else { 8 }, 4);
+    run.checkpoints("loco_sim.default", &LocomotiveSimulation::new(Locomotive::default(), PowerTrace::default(), Some(1)), if thorough { 30 } else { 8 }, 4);
+    {
+        let mut s = SetSpeedTrainSim::default();
+        s.set_save_interval(Some(1));
+        run.checkpoints("set_speed.default", &s, if thorough { 30 } else { 8 }, 4);
+        let mut s = SpeedLimitTrainSim::valid();
+        s.set_save_interval(Some(1));
+        run.checkpoints("speed_limit.valid", &s, if thorough { 30 } else { 8 }, 4);
+    }
+
+    let (mu, mr) = (run.max_ulps_json, run.max_rel_json_resume);
+    run.ctx.count_n("serde.json.max_ulps_per_number_after_reload", mu);
+    run.ctx.count_n("serde.json.resume_max_rel_diff_x1e15", (mr * 1e15) as u64);
+    let n_obj = run.n_obj;
+    run.ctx.sample("serde.summary", json!({"objects_checked": n_obj, "json_max_ulps": mu, "json_resume_max_rel_diff": mr}));
+    let _ = std::fs::remove_dir_all(&tmp);
 }
